@@ -264,7 +264,7 @@ theorem RegistryOk.pageTree {schemas : List Schema} (h : RegistryOk schemas) :
   simp only [Bool.and_eq_true] at h
   exact h.2
 
-theorem findSchema_mem {name : String} {schemas : List Schema} {S : Schema} (h : findSchema name schemas = some S) :
+theorem findSchema_mem_c01 {name : String} {schemas : List Schema} {S : Schema} (h : findSchema name schemas = some S) :
     S ∈ schemas := by
   induction schemas with
   | nil => simp [findSchema] at h
@@ -299,7 +299,7 @@ theorem readPagesNode_clean (cfg : Cfg) (schemas : List Schema) (hreg : Registry
             | none => have := hreg.page; rw [hP] at this; cases this
             | some S =>
               simp only []
-              have := readStructD_clean cfg inner he S (hS S (findSchema_mem hP)) _ hder
+              have := readStructD_clean cfg inner he S (hS S (findSchema_mem_c01 hP)) _ hder
               cases hrd : readStructD cfg inner env S (derase "Type" d) with
               | ok v => exact clean_ok _
               | error e => exact clean_err _ (by simpa [Err.hasOof] using this e hrd)
@@ -308,7 +308,7 @@ theorem readPagesNode_clean (cfg : Cfg) (schemas : List Schema) (hreg : Registry
               | none => have := hreg.pageTree; rw [hP] at this; cases this
               | some S =>
                 simp only []
-                have := readStructD_clean cfg inner he S (hS S (findSchema_mem hP)) _ hder
+                have := readStructD_clean cfg inner he S (hS S (findSchema_mem_c01 hP)) _ hder
                 cases hrd : readStructD cfg inner env S (derase "Type" d) with
                 | ok v => exact clean_ok _
                 | error e => exact clean_err _ (by simpa [Err.hasOof] using this e hrd)
@@ -380,7 +380,7 @@ theorem semH_clean (cfg : Cfg) (schemas : List Schema) (hreg : RegistryOk schema
         | some S =>
           simp only []
           cases hk : S.kind with
-          | struct => exact readStruct_clean cfg _ he S (hS S (findSchema_mem hf)) p hp
+          | struct => exact readStruct_clean cfg _ he S (hS S (findSchema_mem_c01 hf)) p hp
           | nameEnum => exact readEnum_clean he S p hp
           | intEnum => exact readEnum_clean he S p hp
           | streamEnum => simp [isHand, hf, hk] at hnh
@@ -395,7 +395,7 @@ theorem semH_clean (cfg : Cfg) (schemas : List Schema) (hreg : RegistryOk schema
           simp only []
           obtain ⟨g, hg, hgp⟩ := inst_fields S t
           have hd : dfltOkFrom schemas (S.inst t).fields 0 = true := by
-            rw [hg, dfltOkFrom_map schemas g hgp]; exact hreg.dflt S (findSchema_mem hf)
+            rw [hg, dfltOkFrom_map schemas g hgp]; exact hreg.dflt S (findSchema_mem_c01 hf)
           exact readStruct_clean cfg _ he _ (schemaOk_of cfg schemas hand n env hall _ hd) p hp
       | leaf nm =>
         by_cases h1 : nm = "PagesNode"
